@@ -92,7 +92,7 @@ def valid_teams_term(rng, kind, n=None):
 def number_term(rng):
     r = rng.random()
     if r < 0.3: return ("I", rng.randint(-5, 9))
-    if r < 0.55: return ("F", rng.choice([0.0, -0.0, 1.5, -2.25, 3.0, 1e20]))
+    if r < 0.55: return ("F", rng.choice([0.0, -0.0, 1.5, -2.25, 3.0, 1e20, float("inf"), float("-inf"), float("nan")]))
     if r < 0.7: return ("B", rng.random() < 0.5)
     if r < 0.8: return ("I", rng.choice([0, 10 ** 20, -10 ** 20]))
     return ("F", rng.uniform(-10, 10))
@@ -202,6 +202,10 @@ def c13_call(res, kind, call, drv_out):
     model = MODEL_CLS[kind]()
     before_r, before_m = snapshot_ratings(registry), model_state(model)
     exc = None
+    import warnings as _w
+    _cw = _w.catch_warnings()
+    _cw.__enter__()
+    _w.simplefilter("error")          # an application may run with warnings turned into errors: a well-formed call must not emit one
     try:
         if op == "rate":
             # every other call also carries per-call options that differ from the model's settings: a rejected call must leave the
@@ -216,6 +220,8 @@ def c13_call(res, kind, call, drv_out):
             getattr(model, op)(teams)
     except Exception as e:  # noqa: BLE001
         exc = type(e).__name__
+    finally:
+        _cw.__exit__(None, None, None)
     res.count("label_" + label)
     res.count("outcome_" + (exc or "accepted"))
     res.traces += 1
@@ -1485,6 +1491,9 @@ def c19_rating_rules(res, rng):
             R = RATING_CLS[k]
             a, b = R(m, s, "n"), R(m2, s2)
             a.history = [1, 2]                       # an application attribute hung on the rating
+            hx = R(m, s, "h"); h0_ = hash(hx); {hx: 1}; hsnap = copy.deepcopy(hx)
+            hx.mu += 1.5; hx.sigma *= 0.5
+            hash_rule = (h0_ == hash((hx.id, m, s)), hash(hx) == hash((hx.id, hx.mu, hx.sigma)), hash(hsnap) == hash((hsnap.id, m, s)), hsnap in {hsnap}, (hsnap in {hx}) == (hsnap == hx and hash(hsnap) == hash(hx)))
             c = copy.deepcopy(a)
             A = core.account_class(R)
             u = A("acc", "eu", m, s)
@@ -1502,7 +1511,7 @@ def c19_rating_rules(res, rng):
                        u == a, (u < b, u <= b, b > u, b >= u), sub_rate,
                        # what a copy does with an attribute the application added; == / != against an object that claims to equal everything
                        hasattr(c, "history"), getattr(c, "history", None) is a.history, (a == _ANY, a != _ANY, _ANY == a, [a].count(_ANY), a in [_ANY]),
-                       (a == _NEVER, a != _NEVER))
+                       (a == _NEVER, a != _NEVER), hash_rule)
         res.count("rating_rule_rows")
         if len(set(rows.values())) != 1:
             res.fail("property", "C19: rating classes compare/hash/copy by different rules: %r" % rows, dict(type="c19rules"))
@@ -1869,9 +1878,57 @@ def c20_forked_workers(res):
                      dict(type="c20fork", kind=kind))
 
 
+def c20_interleaved_creation(res):
+    """model.rating() / create_rating() pre-empted at every source line by another creation (what a second thread registering a
+    newcomer at that moment does): every id is still fresh"""
+    import sys as _sys
+    prefix = os.path.realpath(core.REPO) + os.sep
+    for kind in KINDS:
+        model = MODEL_CLS[kind]()
+        for maker in ((lambda: model.rating()), (lambda: model.create_rating([25.0, 8.0])), (lambda: RATING_CLS[kind](25.0, 8.0))):
+            n_events = [0]
+
+            def count(frame, event, arg):
+                if not frame.f_code.co_filename.startswith(prefix):
+                    return None
+                if event == "line":
+                    n_events[0] += 1
+                return count
+            old = _sys.gettrace(); _sys.settrace(count)
+            try:
+                maker()
+            finally:
+                _sys.settrace(old)
+            for k_ in range(n_events[0]):
+                st = {"n": 0, "inner": []}
+
+                def tr(frame, event, arg):
+                    if not frame.f_code.co_filename.startswith(prefix):
+                        return None
+                    if event == "line":
+                        if st["n"] == k_:
+                            st["inner"] = [maker().id, maker().id]
+                        st["n"] += 1
+                    return tr
+                old = _sys.gettrace(); _sys.settrace(tr)
+                try:
+                    outer = maker().id
+                finally:
+                    _sys.settrace(old)
+                after = maker().id
+                ids = [outer, after] + st["inner"]
+                res.count("rating_creations_pre_empted_at_a_line")
+                if len(set(map(str, ids))) != len(ids):
+                    res.fail("property", "C20: %s: a rating created while another creation was in progress (pre-empted at line event %d) shares its id: %r" % (kind, k_, ids),
+                             dict(type="c20ids", kind=kind))
+                    return
+
+
 def c20(res):
     rng = random.Random(res.seed)
     c20_store_aliasing(res, rng)
+    if res.shard == 0:
+        c20_interleaved_creation(res)
     if res.shard == 0:
         c20_forked_workers(res)
     seen = set()
